@@ -11,7 +11,8 @@ Record call := Call {
   c_kind : okind; c_heads : nat; c_state : mstate; c_b : Z; c_X : list row; c_args : list arg;
   c_adt : list nat (* dtype code of every arg as given by the caller *);
   c_odt : nat (* dtype code of the tensors the module returns *);
-  c_oshape : list Z (* their trailing dimensions (after the batch dimension) *) }.
+  c_oshapes : list (list Z) (* per output: its trailing dimensions (after the batch dimension);
+                               [] = an output of shape (batch,), one scalar per example *) }.
 
 (* observed: the returned value (or "raised") and the trace of forward calls *)
 Definition outcome := (res yval * list callrec)%type.
@@ -24,13 +25,18 @@ Definition rows_eqb : list row -> list row -> bool := list_eqb row_eqb.
 
 (* model(X[i], args[0][i], args[1][i], ...) for output m of the recording module, in
    evaluation mode: m * (X[i] ++ args[0][i] ++ args[1][i] ++ ...)                         *)
-Definition expected_row (m : Z) (X : list row) (args : list arg) (i : nat) : row :=
-  map (Z.mul m) (nth i X [] ++ concat (map (fun a => nth i a []) args)).
+Definition expected_row (scalar : bool) (m : Z) (X : list row) (args : list arg) (i : nat) : row :=
+  if scalar then [m * hd 0 (nth i X [])]
+  else map (Z.mul m) (nth i X [] ++ concat (map (fun a => nth i a []) args)).
+
+(* output j of the module has no trailing dimension *)
+Definition is_scalar (c : call) (j : nat) : bool :=
+  match nth j (c_oshapes c) [0] with [] => true | _ => false end.
 
 (* o is the concatenation over examples, in input order *)
-Definition head_ok (m : Z) (X : list row) (args : list arg) (o : list row) : bool :=
+Definition head_ok (scalar : bool) (m : Z) (X : list row) (args : list arg) (o : list row) : bool :=
   (length o =? length X)%nat &&
-  forallb (fun i => row_eqb (nth i o []) (expected_row m X args i)) (seq 0 (length X)).
+  forallb (fun i => row_eqb (nth i o []) (expected_row scalar m X args i)) (seq 0 (length X)).
 
 (* every forward call ran with EVERY (sub-)module in evaluation mode and gradients disabled *)
 Definition flags_ok (t : list callrec) : bool :=
@@ -53,14 +59,14 @@ Definition spec_ok (c : call) (o : outcome) : bool :=
       match fst o with
       | Ok (YT r) =>
           match c_kind c with
-          | KTensor => head_ok 1 (c_X c) (c_args c) r && flags_ok (snd o) && dtypes_ok (c_adt c) (snd o)
+          | KTensor => head_ok (is_scalar c 0) 1 (c_X c) (c_args c) r && flags_ok (snd o) && dtypes_ok (c_adt c) (snd o)
           | _ => false
           end
       | Ok (YM hs) =>
           match c_kind c with
           | KTensor => false
           | _ => (length hs =? c_heads c)%nat &&
-                 forallb (fun j => head_ok (Z.of_nat j + 1) (c_X c) (c_args c) (nth j hs []))
+                 forallb (fun j => head_ok (is_scalar c j) (Z.of_nat j + 1) (c_X c) (c_args c) (nth j hs []))
                          (seq 0 (c_heads c)) &&
                  flags_ok (snd o) && dtypes_ok (c_adt c) (snd o)
           end
@@ -85,7 +91,7 @@ Definition trace_ok (c : call) (t : list callrec) : bool :=
                     forallb (fun a => (length a =? length (cr_X r))%nat) (cr_args r)) t.
 
 Definition model (c : call) : outcome :=
-  predict_model (g_ex (c_kind c) (enc_heads (nheads c))) (c_state c) (c_b c) (c_X c) (c_args c) (c_adt c).
+  predict_model (g_ex (c_kind c) (enc_heads (is_scalar c) (nheads c))) (c_state c) (c_b c) (c_X c) (c_args c) (c_adt c).
 
 Definition yval_eqb (a b : yval) : bool :=
   match a, b with
@@ -111,10 +117,10 @@ Definition meta_eqb (a b : nat * list Z) : bool :=
 
 Definition outmeta_ok (c : call) (o : outcome) (obs : list (nat * list Z)) : bool :=
   if in_scope c && args_aligned c then
-    let want := (c_odt c, Z.of_nat (length (c_X c)) :: c_oshape c) in
+    let want j := (c_odt c, Z.of_nat (length (c_X c)) :: nth j (c_oshapes c) [0]) in
     match fst o with
-    | Ok (YT _) => list_eqb meta_eqb obs [want]
-    | Ok (YM hs) => list_eqb meta_eqb obs (map (fun _ => want) hs)
+    | Ok (YT _) => list_eqb meta_eqb obs [want 0%nat]
+    | Ok (YM hs) => list_eqb meta_eqb obs (map want (seq 0 (length hs)))
     | Err => true
     end
   else true.
@@ -122,10 +128,12 @@ Definition outmeta_ok (c : call) (o : outcome) (obs : list (nat * list Z)) : boo
 (* one correspondence case: the call, what the implementation did (value + full call trace),
    whether X and every arg were bit-identical after the call, whether the module's buffers
    (batch-norm running statistics, batch counter) were bit-identical after the call -- a forward
-   in evaluation mode never touches them --, and the (dtype, shape) of every returned tensor *)
-Definition case := (call * outcome * bool * bool * list (nat * list Z))%type.
+   in evaluation mode never touches them --, the (dtype, shape) of every returned tensor, and
+   whether no returned tensor requires grad or carries a grad_fn ("with gradients disabled":
+   observed on the results as well as through the grad flag of every forward call) *)
+Definition case := (call * outcome * bool * bool * list (nat * list Z) * bool)%type.
 
 Definition check_case (c : case) : nat :=
-  let '(cl, o, unchanged, buffers_unchanged, obs) := c in
+  let '(cl, o, unchanged, buffers_unchanged, obs, detached) := c in
   verdict (outcome_eqb o (model cl))
-          (unchanged && buffers_unchanged && spec_ok cl o && outmeta_ok cl o obs).
+          (unchanged && buffers_unchanged && detached && spec_ok cl o && outmeta_ok cl o obs).
